@@ -145,6 +145,27 @@ SelfStopSilently ==
     /\ st' = DoLsc([Commit(st, st.cur) EXCEPT !.await = "lsc"], st.cur, FALSE, TRUE)
     /\ UNCHANGED script
 
+\*  - the tree asks the global condition between two children of a sprouting round and abandons the remaining seeds when it
+\*    holds (free verdicts only: a condition computed from evaluation totals would need the children's initial evaluations,
+\*    which the model performs after the round).  The round then "took a sprout" from the parents of the children that exist.
+RECURSIVE CutRound(_, _)
+CutRound(R, j) ==          \* the first j children of round R (a sequence of <<parent, n>>)
+    IF j <= 0 \/ R = <<>> THEN <<>>
+    ELSE IF Head(R)[2] >= j THEN << <<Head(R)[1], j>> >>
+    ELSE <<Head(R)>> \o CutRound(Tail(R), j - Head(R)[2])
+RoundSize(R) == Sum([i \in DOMAIN R |-> R[i][2]], DOMAIN R)
+SproutAbandoned ==
+    /\ AllowVariants /\ EnSprout(st) /\ ~GscModelled(st) /\ ~ExactOffers
+    /\ \E O \in [ParentSet(st) -> 0..MaxOffer] :
+         \E S \in [ParentSet(st) -> 0..MaxOffer] :
+            /\ \A d \in ParentSet(st) : O[d] <= OfferCap(st, d)
+            /\ Filtered(st, O, S)
+            /\ LET R == RoundOf(st, S) IN
+               /\ ValidRound(st, R) /\ WithinLimit(st, R) /\ RoundSize(R) >= 2
+               /\ \E j \in 1..(RoundSize(R) - 1) :
+                    /\ st' = [DoSprout(st, CutRound(R, j)) EXCEPT !.gscSeen = TRUE, !.gscAt = IF @ = -1 THEN st.steps ELSE @]
+                    /\ Note([a |-> "round_abandoned", kept |-> CutRound(R, j)])
+
 \* the caller steps the tree itself (DemeTree.run_step is public): a step begins whatever the global condition says
 ManualStep ==
     /\ AllowManual
@@ -152,7 +173,7 @@ ManualStep ==
     /\ st' = DoLoopCheck([st EXCEPT !.pc = "loop"], FALSE)
     /\ Note([a |-> "manual_step"])
 
-Next == ManualStep \/ LscFirst \/ SelfStopSilently \/ ChildInit \/ LoopCheck \/ Begin \/ Iter \/ GenGsc \/ Lsc \/ LocalRun \/ PostGsc \/ Sprout
+Next == ManualStep \/ LscFirst \/ SelfStopSilently \/ SproutAbandoned \/ ChildInit \/ LoopCheck \/ Begin \/ Iter \/ GenGsc \/ Lsc \/ LocalRun \/ PostGsc \/ Sprout
 
 Spec == Init /\ [][Next]_vars
 
